@@ -22,6 +22,7 @@ import itertools
 import json
 import sys
 import traceback
+import zlib
 
 import common
 import values
@@ -453,6 +454,18 @@ class Real:
 
     def evaluate(self, expr, data, t2l, s2l, lim, conv_in, conv_out=True):
         eng, cache = self.engine(t2l, s2l, lim, conv_in, conv_out)
+        # how the engine with these options came to be: built by the factory (half of the texts), or derived from a
+        # base engine WITHOUT them that has parsed the same text before - engine.copy(options) / engine(text, options)
+        via = zlib.crc32(expr.encode('utf8')) % 4
+        if via in (2, 3) and conv_out:
+            base, _ = self.engine(True, False, None, conv_in, True)     # the library defaults
+            try:
+                base(expr)
+            except Exception:       # noqa
+                pass
+            opts = dict(eng.options)
+            st = base.copy(opts)(expr) if via == 2 else base(expr, options=opts)
+            return st.evaluate(data=data, context=self.root.create_child_context())
         st = cache.get(expr)
         if st is None:
             st = cache[expr] = eng(expr)
